@@ -25,6 +25,7 @@ func checkC03(w *World, r *Report) {
 	})
 	errorIsRule(w, r, "C03.is")
 	droppedErrorRule(w, r, "C03.checked-first")
+	handlerThrowLint(w, r, "C03.lisp-handlers")
 	loopErrorRule(w, r, "C03.loop-errors", func(fn *ssa.Function) bool { return runtimePkg(fnPkgPath(fn)) })
 	r.rule("C03.once", "the value of the try body and of the catch handler is returned / continued as a form exactly once: no result of an evaluating call flows back into the evaluator (shared with C01.once)")
 	r.rule("C03.finally-dom", "the finally evaluation is registered (defer) exactly once, outside any inner loop, in a block that dominates every exit of the try region reachable after the body has run")
@@ -1422,16 +1423,26 @@ func checkC12(w *World, r *Report) {
 	// macro test true only via GetMacro
 	okTest := true
 	nTrue := 0
-	for _, rt := range m.returns(m.isMacroCall) {
-		v := rt[1].(ssa.Value)
+	var viaFlag func(v ssa.Value, depth int)
+	viaFlag = func(v ssa.Value, depth int) {
 		if c, ok := v.(*ssa.Const); ok && c.Value != nil && !constant.BoolVal(c.Value) {
-			continue
+			return
+		}
+		// `ok && fn.GetMacro()`: a merge of false and the flag
+		if phi, ok := v.(*ssa.Phi); ok && depth < 4 {
+			for _, ed := range phi.Edges {
+				viaFlag(ed, depth+1)
+			}
+			return
 		}
 		nTrue++
 		c, ok := v.(*ssa.Call)
 		if !ok || c.Call.StaticCallee() == nil || c.Call.StaticCallee().Name() != "GetMacro" {
 			okTest = false
 		}
+	}
+	for _, rt := range m.returns(m.isMacroCall) {
+		viaFlag(rt[1].(ssa.Value), 0)
 	}
 	r.check(okTest && nTrue >= 1, "C12.flag", m.isMacroCall, "macro test", m.isMacroCall.Pos(), "true only as the value of GetMacro()", "the macro test can be true for a value whose macro flag is not set")
 	// only a list is a call: a vector (or any other sequence) headed by a macro's name is data and stays as it is
@@ -1571,6 +1582,27 @@ func checkC12(w *World, r *Report) {
 			}
 			r.check(okApp && nreg == 0, "C12.expand-always", m.EVAL, "macro expansion before the dispatch", mx.Pos(), fmt.Sprintf("dominates all %d special-form regions and the application", len(m.regionNames)), "the application can be reached without macro expansion")
 		}
+	}
+	// the value of a quasiquoted template is the value of its expansion, whatever kind of form the expansion is
+	r.rule("C12.qq-evaluated", "the quasiquote form never hands its expansion back as its own value: every way out of that arm of the evaluator without an error continues the loop with the expansion as the form to evaluate (an expansion that is a vector or map - the template ~[a b] - is evaluated like any other)")
+	{
+		nq := 0
+		reg := m.regions["quasiquote"]
+		for _, rt := range m.returns(m.EVAL) {
+			ret := rt[0].(*ssa.Return)
+			if !reg[ret.Block()] {
+				continue
+			}
+			nq++
+			ev, _ := rt[2].(ssa.Value)
+			if ev != nil && !isNilConst(ev) {
+				r.ok("C12.qq-evaluated", m.EVAL, "error exit of the quasiquote arm", ret.Pos(), "reports an error")
+				continue
+			}
+			r.bad("C12.qq-evaluated", m.EVAL, "value returned from the quasiquote arm", ret.Pos(), "the quasiquote arm returns "+describeVal(e, rt[1].(ssa.Value), 0)+" as the value of the form instead of continuing with it as the form to evaluate: a template whose expansion is of that kind yields the unevaluated expansion")
+		}
+		r.check(len(reg) > 0 && m.reachesHeader(reg), "C12.qq-evaluated", m.EVAL, "the quasiquote arm continues the loop", token.NoPos, "reaches the loop header", "the quasiquote arm never continues the evaluation loop")
+		_ = nq
 	}
 	// whether a form is a macro call is decided when - and in the scope where - it is evaluated
 	r.rule("C12.expand-site", "macro expansion happens in two places only: at the top of the evaluation loop, on the form about to be evaluated, and in the macroexpand special form; no other part of the evaluator (the fn form building a closure, the body helper handing back a tail form) expands forms ahead of their evaluation or tests them for being macro calls, since the scope that decides - a parameter that shadows a macro, a macro redefined later - is the scope at evaluation time")
@@ -2383,6 +2415,7 @@ func engineRule(w *World, r *Report, e *Engine) {
 	tableEscapeRule(w, r, "C18.scope-table")
 	// ... nor does it write the positions of the forms it is shown (they are shared with the forms and with the
 	// errors the program goes on to raise)
+	printPureRule(w, r, "C18.print-pure")
 	r.rule("C18.position-intact", "the repository's debugger engine writes no field of a Position it did not allocate itself: what it displays about a form's position is computed on copies, so the errors of the debugged program name the same module and rows as without a stepper")
 	npw := positionWrites(w, r, e, "C18.position-intact", func(fn *ssa.Function) bool { return strings.HasSuffix(fnPkgPath(fn), "/debugger") })
 	r.add("C18.position-intact", nil, "writes to Position fields in package debugger", token.NoPos, "ok", fmt.Sprintf("%d examined", npw))
